@@ -15,6 +15,7 @@ def run(ctx):
     changes = sum(n for s, n in shapes.items() if s.startswith(("join:", "part", "kick:", "nick:", "end:", "quit")))
     res.extra["view_probes"] = probes
     res.extra["membership_changes"] = changes
+    res.extra["announcement_derived_roster_checks"] = sum(r.get("derived_checks", 0) for r in results)
     res.floor("view_probes", probes, 300)
     res.floor("membership_changes", changes, 500)
     for r in results[:3]:
